@@ -35,7 +35,8 @@ Fillers == {
     "S$ < \"b\"", "1 < S$", "#1", "7 MOD .4", "7 MOD 0", ".4", "1 / .0000001", "2 ^ 2", "1 \\ 2", "N% AND",
     "Arr(1 TO 2)", "1 TO", "(1 TO 2)", "N% * 99999", "32767 + N%", "8", "80", "25", "F$", "A", "Z", "X",
     "Qq", "Pq%", "\"T.TXT\"", "\"##\"", "", " ", ":", "'", ",", ";", "=", "1 TO 2", "-", "- -1", "(N%",
-    "N%)", "\"abc\"+Chr$(200)", "Chr$(200)+\"abcd\"", "String$(5,200)", "\"aé\"", "Pa() AS MyType", "Pr AS MyType", "Pi() AS INTEGER", "Ps$()", "Pn AS LONG", "Pu AS Undef", "Pq%()", "#99999999999", "#256", "#0", "#-1", "#1.5", "#N%", "#", "(Arr())", "ArrS$()", "RecArr()", "Arr(1)()", "Qf", "Qf%", "Qf!", "Qg", "Qg$", "QQ", "A.B$", "Rec.X%", "Undef.X$", "Rec.S$", "&O8", "&o17", "2#" }
+    "N%)", "\"abc\"+Chr$(200)", "Chr$(200)+\"abcd\"", "String$(5,200)", "\"aé\"", "Pa() AS MyType", "Pr AS MyType", "Pi() AS INTEGER", "Ps$()", "Pn AS LONG", "Pu AS Undef", "Pq%()", "#99999999999", "#256", "#0", "#-1", "#1.5", "#N%", "#", "(Arr())", "ArrS$()", "RecArr()", "Arr(1)()", "VARPTR", "VARSEG", "LEN", "MID$", "CHR$", "EOF", "PEEK", "INSTR", "UBOUND", "CVD", "MKD$", "VAL", "STR$", "VARPTR()", "LEN()",
+    "Qf", "Qf%", "Qf!", "Qg", "Qg$", "QQ", "A.B$", "Rec.X%", "Undef.X$", "Rec.S$", "&O8", "&o17", "2#" }
 
 Core == {
     "N%", "S$", "Arr(1)", "Arr", "Rec.X", "RecArr(1).X", "Rec", "Undef", "Undef(1)", "MyConst", "MySub",
